@@ -1695,7 +1695,11 @@ class DNA(symbolic.Object):
     for k, v in self.metadata.items():
       if k in self._cloneable_metadata_keys:
         metadata[k] = v
-    other.rebind(metadata=metadata)
+    # NOTE: the clone of a sealed DNA is sealed, with its new metadata.
+    with symbolic.as_sealed(False):
+      other.rebind(metadata=metadata)
+    if self.is_sealed:
+      other.seal()
     other._cloneable_metadata_keys = set(self._cloneable_metadata_keys)  # pylint: disable=protected-access
     return other
 
